@@ -306,7 +306,7 @@ def specs_early_cancel(ctx, kinds, seeds=3, upto=22, tag='early'):
         for sd in range(seeds):
             for at in range(0, upto):
                 out.append(dict(transfers=[ts], cfg=CFG_SMALL, chooser={'kind': ['random', 'pct'][n % 2], 'seed': rng.randrange(1 << 30)},
-                                cancel=dict(how='future', at=at)))
+                                cancel=dict(how='future', at=at), queued_yield=bool(n % 2)))
                 n += 1
     return out
 
